@@ -711,6 +711,32 @@ class Flow:
         dn, val, loop = d_upd
         if use in self.cfg.loop_body_nodes(loop) or not self.cfg.dominates(d_init[0], loop):
             return None
+        # the accumulate form  m = max(m, E)  (also what the loader makes of `if E > m: m = E`)
+        if isinstance(val, ast.Call) and isinstance(val.func, ast.Name) and val.func.id in ("max", "min") and len(val.args) == 2 and not val.keywords \
+                and dn.stmt in loop.stmt.body and sum(1 for a in val.args if isinstance(a, ast.Name) and a.id == name) == 1:
+            kind0 = val.func.id
+            other = [a for a in val.args if not (isinstance(a, ast.Name) and a.id == name)][0]
+            stores = [x for x in ast.walk(loop.stmt) if isinstance(x, ast.Name) and x.id == name and isinstance(x.ctx, ast.Store)]
+            if len(stores) == 1 and not any(isinstance(x, ast.Name) and x.id == name for x in ast.walk(other)):
+                gen0 = ast.comprehension(target=copy.deepcopy(loop.stmt.target), iter=copy.deepcopy(loop.stmt.iter), ifs=[], is_async=0)
+                comp0 = ast.fix_missing_locations(ast.copy_location(ast.GeneratorExp(elt=copy.deepcopy(other), generators=[gen0]), loop.stmt))
+                ex0 = self._expand_comp(comp0, loop, depth - 1, stack + ((name, dn.id),))
+                inner0 = ast.Call(func=ast.Name(id=kind0, ctx=ast.Load()), args=[ex0], keywords=[])
+                init0 = self.expand(d_init[1], d_init[0], depth - 1, stack + ((name, d_init[0].id),))
+                first0 = ast.Subscript(value=copy.deepcopy(loop.stmt.iter), slice=ast.Constant(value=0), ctx=ast.Load())
+                env0 = {}
+
+                def bind0(tg, v):
+                    if isinstance(tg, ast.Name):
+                        env0[tg.id] = v
+                    elif isinstance(tg, (ast.Tuple, ast.List)):
+                        for i, x in enumerate(tg.elts):
+                            bind0(x, ast.Subscript(value=copy.deepcopy(v), slice=ast.Constant(value=i), ctx=ast.Load()))
+                bind0(loop.stmt.target, first0)
+                e_first0 = self.expand(_subst_names(copy.deepcopy(other), env0), loop, depth - 1, stack)
+                if " ".join(ast.unparse(init0).split()) == " ".join(ast.unparse(e_first0).split()):
+                    return inner0
+                return ast.Call(func=ast.Name(id=kind0, ctx=ast.Load()), args=[init0, inner0], keywords=[])
         # the update is the only statement under a comparison of its own value with the running variable, directly in the loop
         tests = [(t, lab) for t, lab in self.cfg.edges_dominating(dn) if t.kind == "test" and self.cfg.dominates(loop, t)]
         if len(tests) != 1:
